@@ -379,10 +379,13 @@ def oracle_match(uri, regs, native):
         return False, reasons
     qd = conventional_query(query)
     matched = False
+    near = []
     for r in regs:
         if scheme.lower() != r["scheme"] or r["sep"] != "://":
             continue
         if userinfo != r["userinfo"] or host.lower() != r["host"].lower() or path != r["path"]:
+            if userinfo == r["userinfo"] and host.lower() == r["host"].lower() and path == r["path"] + ";":
+                near.append("empty-params")
             continue
         loop = native and r["scheme"] == "http" and host in LOOPBACK_HOSTS and r["host"] in LOOPBACK_HOSTS
         if not loop:
@@ -393,18 +396,20 @@ def oracle_match(uri, regs, native):
         if qd != (r["qd"] or {}):
             # a difference that consists only of blank-valued parameters gets its own reason
             if {k: [v for v in vs if v != ""] for k, vs in qd.items() if any(v != "" for v in vs)} == (r["qd"] or {}):
-                reasons.append("blank-query")
+                near.append("blank-query")
             elif r["form"] == "str" and r["rawq"] and qd == {}:
-                reasons.append("str-query-dropped")
+                near.append("str-query-dropped")
             continue
         matched = True
-    if regs and not matched and not reasons:
-        reasons.append("mismatch")
+    if regs and not matched:
+        reasons += near
+        if not reasons:
+            reasons.append("mismatch")
     return (matched and not reasons), reasons
 
 
 def sig_of(reasons):
-    for r, s in (("nothing-registered", "oauth2-nothing-registered"), ("ctl", "ctl-char-stripped"), ("fragment", "empty-fragment-accepted"), ("blank-query", "blank-query-param-ignored"),
+    for r, s in (("nothing-registered", "oauth2-nothing-registered"), ("ctl", "ctl-char-stripped"), ("fragment", "empty-fragment-accepted"), ("blank-query", "blank-query-param-ignored"), ("empty-params", "empty-path-params-dropped"),
                  ("str-query-dropped", "string-registration-query-dropped"),
                  ("malformed", "malformed-accepted")):
         if r in reasons:
@@ -436,6 +441,15 @@ EXC = {"URIError": "(Err (Refused 1))", "RedirectURIError": "(Err (Refused 2))",
 def is_ascii(s):
     return all(ord(ch) < 128 for ch in s)
 
+
+
+def check_groups(ctx, groups):
+    """run several ctx.coq_check_cases groups concurrently (each group shards in parallel itself)"""
+    from concurrent.futures import ThreadPoolExecutor
+    groups = [g for g in groups if g["cases"]]
+    with ThreadPoolExecutor(max_workers=max(1, len(groups))) as ex:
+        list(ex.map(lambda g: ctx.coq_check_cases(g["imports"], g["type"], g["chk"], g["cases"], shard=g.get("shard", 300),
+                                                  label=g["label"], diag=g.get("diag")), groups))
 
 # ------------------------------------------------------------------ urllib differential (model of the glue)
 class UrlDiff:
@@ -529,10 +543,15 @@ class UrlDiff:
         self.ctx.count("urllib:unquote", len(self.unq))
         self.ctx.count("urllib:urlparse", len(self.prs))
         self.ctx.count("urllib:parse_qs", len(self.qs) + len(self.qsl))
-        self.ctx.coq_check_cases(imp, "pystr * res pystr", "chk_unquote", self.unq, label="unquote")
-        self.ctx.coq_check_cases(imp, "pystr * parse_obs", "chk_urlparse", self.prs, label="urlparse", diag="(fun c => parse_view (fst c))")
-        self.ctx.coq_check_cases(imp, "pystr * res qdict", "chk_parse_qs", self.qs, label="parseqs", diag="(fun c => parse_qs (fst c))")
-        self.ctx.coq_check_cases(imp, "bool * pystr * res (list (pystr * pystr))", "chk_parse_qsl", self.qsl, label="parseqsl")
+        return [
+            {"imports": imp, "type": "pystr * res pystr", "chk": "chk_unquote", "cases": self.unq, "label": "unquote"},
+            {"imports": imp, "type": "pystr * parse_obs", "chk": "chk_urlparse", "cases": self.prs, "label": "urlparse",
+             "diag": "(fun c => parse_view (fst c))"},
+            {"imports": imp, "type": "pystr * res qdict", "chk": "chk_parse_qs", "cases": self.qs, "label": "parseqs",
+             "diag": "(fun c => parse_qs (fst c))"},
+            {"imports": imp, "type": "bool * pystr * res (list (pystr * pystr))", "chk": "chk_parse_qsl", "cases": self.qsl,
+             "label": "parseqsl"},
+        ]
 
 
 # ------------------------------------------------------------------ driving the real code
@@ -686,7 +705,7 @@ def oracle_delivery(ctx, obs, req, rec, expected_target):
         elif got_f == issued and got_q == own_q:
             where = "fragment"
         else:
-            sig = "delivery-empty-fragment" if "#" in ret else "delivery-mismatch"
+            sig = "empty-fragment-accepted" if "#" in ret else "delivery-mismatch"
             ctx.violation(sig, "redirect %r delivers query %r / fragment %r; issued %r, redirect_uri's own query %r"
                           % (url, got_q, got_f, issued, own_q), rec)
             return
@@ -743,6 +762,24 @@ def coq_fval(v):
 def coq_args(items):
     return coq_list(["(%s, %s)" % (coq_str(k), coq_fval(v)) for k, v in items if v is not None], "(pystr * fval)")
 
+
+
+TOKEN_RE = re.compile(r"^[A-Za-z0-9_.=\-]{40,}$")
+
+
+def shorten(items, text, enc):
+    """Canonicalise long opaque token values (code / access_token / id_token: only URL- and HTML-inert
+    characters) to a short stand-in, in the issued arguments and at their single occurrence in the produced
+    text, so that the Coq literals stay small.  Anything unexpected keeps the full strings."""
+    out = []
+    for k, v in items:
+        if isinstance(v, str) and TOKEN_RE.match(v):
+            short = v[:8] + v[-6:]
+            if text.count(enc(v)) == 1 and text.count(enc(short)) == 0:
+                text = text.replace(enc(v), enc(short))
+                v = short
+        out.append((k, v))
+    return out, text
 
 RTYPES_OIDC = ["code", "id_token", "id_token token", "code id_token", "code token", "code id_token token"]
 RTYPES_OAUTH = ["code", "token"]
@@ -835,7 +872,9 @@ class Run:
                 code, u = 1, ""
             else:
                 code, u = 0, obs["parsed_redirect_uri"]
-            skip = (uri is None and etype == "oidc")      # the OIDC request class itself requires redirect_uri
+            skip = (not uri and etype == "oidc")      # the OIDC request class itself requires redirect_uri
+            if uri == "":
+                skip = True                             # Message drops empty values: same as absent
             if not skip:
                 self.dcases.append(("(%s, %s, %s, %s, (%s, %s))" % (coq_regs(regs), coq_bool(native), coq_bool(etype == "oidc"),
                                                                   coq_opt(uri, coq_str, "pystr"), coq_n(code), coq_str(u)), rec))
@@ -846,36 +885,56 @@ class Run:
                 from idpyoidc.server.endpoint import fragment_encoding
                 frag = fragment_encoding(obs["return_type"])
             try:
-                self.urlcases.append(("(%s, %s, %s, %s)" % (coq_str(obs["return_uri"]), coq_args(obs["final_args"]), coq_bool(frag),
-                                                          coq_str(obs["redirect"])), rec))
+                fa, red = shorten(obs["final_args"], obs["redirect"], UP.quote_plus)
+                self.urlcases.append(("(%s, %s, %s, %s)" % (coq_str(obs["return_uri"]), coq_args(fa), coq_bool(frag),
+                                                          coq_str(red)), rec))
             except ValueError:
                 ctx.unmodelled += 1
         if obs["page"] is not None and obs["issued"] is not None:
             try:
-                self.formcases.append(("(%s, %s, %s)" % (coq_str(obs["return_uri"] or target), coq_args(obs["issued"]), coq_str(obs["page"])), rec))
+                ia, pg = shorten(obs["issued"], obs["page"], lambda x: x)
+                self.formcases.append(("(%s, %s, %s)" % (coq_str(obs["return_uri"] or target), coq_args(ia), coq_str(pg)), rec))
             except ValueError:
                 ctx.unmodelled += 1
         return obs
 
-    def flush(self):
+    def groups(self):
         ctx = self.ctx
-        self.ud.flush()
+        g = self.ud.flush()
         imp = ["Lib.Base", "Lib.PyStr", "Model.Uri"]
-        # how many verify cases are inside the modelled fragment?
-        ctx.coq_check_cases(imp, "vcase", "chk_verify", self.vcases, shard=300, label="verify", diag="diag_verify")
-        rc, out, vals = ctx.coq_eval("C06_verify_modelled", imp,
-                                     "Definition cases : list vcase := [\n%s\n].\nEval vm_compute in (length (filter (fun c => negb (verify_is_modelled c)) cases)).\n"
-                                     % ";\n".join(t for t, _ in self.vcases[:3000]))
-        try:
-            ctx.unmodelled += int(re.sub(r"[^0-9]", "", vals[-1].split(":")[0]))
-        except Exception:
-            ctx.notes.append("could not count unmodelled verify cases: %s" % out[-200:])
-        ctx.coq_check_cases(imp, "dcase", "chk_decide", self.dcases, shard=300, label="decide", diag="diag_decide")
         imp2 = ["Lib.Base", "Lib.PyStr", "Lib.Urlenc", "Lib.Html", "Model.Delivery"]
-        ctx.coq_check_cases(imp2, "pystr * list (pystr * fval) * bool * pystr", "chk_deliver_url", self.urlcases, shard=150,
-                            label="url", diag="diag_deliver_url")
-        ctx.coq_check_cases(imp2, "pystr * list (pystr * fval) * pystr", "chk_deliver_form", self.formcases, shard=60,
-                            label="form", diag="diag_deliver_form")
+        g += [
+            {"imports": imp, "type": "vcase", "chk": "chk_verify", "cases": self.vcases, "label": "verify", "diag": "diag_verify"},
+            {"imports": imp, "type": "dcase", "chk": "chk_decide", "cases": self.dcases, "label": "decide", "diag": "diag_decide"},
+            {"imports": imp2, "type": "pystr * list (pystr * fval) * bool * pystr", "chk": "chk_deliver_url", "cases": self.urlcases,
+             "shard": 100, "label": "url", "diag": "diag_deliver_url"},
+            {"imports": imp2, "type": "pystr * list (pystr * fval) * pystr", "chk": "chk_deliver_form", "cases": self.formcases,
+             "shard": 40, "label": "form", "diag": "diag_deliver_form"},
+        ]
+        return g
+
+    def count_unmodelled(self):
+        """how many verify_uri cases fall outside the modelled fragment (evaluated by the model itself)"""
+        ctx = self.ctx
+        imp = ["Lib.Base", "Lib.PyStr", "Model.Uri"]
+        from concurrent.futures import ThreadPoolExecutor
+        shards = [self.vcases[i:i + 400] for i in range(0, len(self.vcases), 400)]
+
+        def cnt(job):
+            k, sh = job
+            return ctx.coq_eval("C06_vmodelled_%03d" % k, imp,
+                                "Definition cases : list vcase := [\n%s\n].\nEval vm_compute in (length (filter (fun c => negb (verify_is_modelled c)) cases)).\n"
+                                % ";\n".join(t for t, _ in sh))
+        with ThreadPoolExecutor(max_workers=E.NCPU) as ex:
+            for rc, out, vals in ex.map(cnt, list(enumerate(shards))):
+                try:
+                    ctx.unmodelled += int(re.sub(r"[^0-9]", "", vals[-1].split(":")[0]))
+                except Exception:
+                    ctx.notes.append("could not count unmodelled verify cases: %s" % out[-200:])
+
+    def flush(self, extra=()):
+        check_groups(self.ctx, self.groups() + list(extra))
+        self.count_unmodelled()
 
 
 # ------------------------------------------------------------------ end-session endpoint
@@ -948,7 +1007,7 @@ class Logout:
         if not loc.startswith("https://example.com/verify_logout?"):
             ctx.violation("logout-target-changed", "end_session redirect_location %r is not the logout verification page" % loc, rec)
         if not allowed:
-            sig = "logout-client-id-override" if other_client else "logout-" + sig_of(reasons)
+            sig = "logout-client-id-override" if other_client else sig_of(reasons)
             ctx.violation(sig, "end_session accepts post_logout_redirect_uri %r (%s) and will send the user agent to %r"
                           % (uri, ",".join(reasons), final), rec)
             return
@@ -977,8 +1036,8 @@ class Logout:
             rr = R("https", "client.example.com", "/logout_cb", qd=self.CONFIGS[cfgi][2]["qd"])
             label, uri = mutant_multi(rng, rr) if rng.random() < 0.5 else rng.choice(mutants_single(rr))
             self.case(cfgi, label, uri, rng.choice([None, hostile(rng)]), rng)
-        self.ctx.coq_check_cases(["Lib.Base", "Lib.PyStr", "Lib.Urlenc", "Lib.Html", "Model.Delivery"],
-                                 "pystr * option pystr * pystr", "chk_logout_target", self.cases, label="logout")
+        return [{"imports": ["Lib.Base", "Lib.PyStr", "Lib.Urlenc", "Lib.Html", "Model.Delivery"],
+                 "type": "pystr * option pystr * pystr", "chk": "chk_logout_target", "cases": self.cases, "label": "logout"}]
 
 
 # ------------------------------------------------------------------ html.escape differential
@@ -989,7 +1048,8 @@ def html_cases(ctx, rng, n):
         s = hostile(rng)
         cases.append(("(%s, %s)" % (coq_str(s), coq_str(html.escape(s))), {"html.escape": s}))
         ctx.case_seen({"html.escape": s}, True)
-    ctx.coq_check_cases(["Lib.Base", "Lib.PyStr", "Lib.Html", "Model.Delivery"], "pystr * pystr", "chk_html_escape", cases, label="htmlesc")
+    return [{"imports": ["Lib.Base", "Lib.PyStr", "Lib.Html", "Model.Delivery"], "type": "pystr * pystr", "chk": "chk_html_escape",
+             "cases": cases, "label": "htmlesc"}]
 
 
 # ------------------------------------------------------------------ entry points
@@ -1042,12 +1102,12 @@ def run(ctx):
         cfg = rng.choice(good)
         etype = rng.choice(["oidc", "oauth2"])
         run_.endpoint_case(cfg, etype, "exact", reg_exact(rng.choice(cfg[2])), rng)
-    run_.flush()
     # 4. end-session
     lo = Logout(ctx, run_.ops["oidc"])
-    lo.run(rng, 40 if quick else 1500)
+    extra = lo.run(rng, 40 if quick else 1500)
     # 5. html.escape itself
-    html_cases(ctx, rng, 200 if quick else 5000)
+    extra += html_cases(ctx, rng, 200 if quick else 5000)
+    run_.flush(extra)
 
 
 def replay(ctx, rp):
